@@ -133,7 +133,9 @@ def phi_1D_genic(xx, nu=1.0, theta0=1.0, gamma=0, theta=None, beta=1):
         raise ValueError('The parameter theta has been deprecated in favor of '
                          'parameters nu and theta0, for consistency with the '
                          'Integration functions.')
-    if gamma == 0:
+    # (also for gamma so small that 2*gamma*(1-x) would underflow; the
+    # neutral density differs from the selected one by O(gamma))
+    if abs(gamma) < 1e-100:
         return phi_1D_snm(xx, nu, theta0, beta=beta)
 
     # Beta effectively re-scales gamma, as does the population size nu
